@@ -232,7 +232,10 @@ where
             if !interlock.receiver.check_local() {
                 return Err(ser::Error::custom("cannot send sender because receiver has been sent"));
             }
-            interlock.receiver.start_send()
+            if !interlock.sender.check_local() {
+                return Err(ser::Error::custom("cannot send sender because it has already been sent"));
+            }
+            interlock.sender.start_send()
         };
 
         let port = PortSerializer::connect(move |connect| {
